@@ -27,15 +27,21 @@ def exclude (a : Vals V) (lo hi : Int) : Vals V :=
 def include_ (a : Vals V) (lo hi : Int) : Vals V :=
   a.filter fun p => decide (lo ≤ p.1) && decide (p.1 ≤ hi)
 
+/-- the merge loop of `a.Merge(b)` (`for len(a) > 0 && len(b) > 0 { … }` and the two trailing
+    appends); the first argument is the loop's variant `len(a) + len(b)`, which makes the
+    definition structurally recursive (kernel-reducible: concrete instances are decided by
+    evaluation).  `b` wins on equal timestamps. -/
+def mergeAux : Nat → Vals V → Vals V → Vals V
+  | _, [], b => b
+  | _, x :: a, [] => x :: a
+  | 0, x :: a, y :: b => x :: a ++ y :: b      -- not reached: the variant is large enough
+  | k + 1, x :: a, y :: b =>
+    if x.1 < y.1 then x :: mergeAux k a (y :: b)
+    else if x.1 = y.1 then mergeAux k a (y :: b)
+    else y :: mergeAux k (x :: a) b
+
 /-- `a.Merge(b)`: overlay `b` on top of `a`; on equal timestamps `b`'s point is kept. -/
-def merge : Vals V → Vals V → Vals V
-  | [], b => b
-  | x :: a, [] => x :: a
-  | x :: a, y :: b =>
-    if x.1 < y.1 then x :: merge a (y :: b)
-    else if x.1 = y.1 then merge a (y :: b)
-    else y :: merge (x :: a) b
-termination_by a b => a.length + b.length
+def merge (a b : Vals V) : Vals V := mergeAux (a.length + b.length) a b
 
 /-- `Values.MinTime()` = `a[0].UnixNano()`; `none` where Go would index an empty slice. -/
 def minTime? (a : Vals V) : Option Int := a.head?.map (·.1)
